@@ -1,6 +1,7 @@
 import GlueVerif.Sexp
 import GlueVerif.Model.Coords
 import GlueVerif.Model.C15Float
+import GlueVerif.Model.C15History
 /-! Line-protocol driver for C15 (world coordinates, their links and inverses). -/
 open GlueVerif GlueVerif.Sexp GlueVerif.ArrayUtil GlueVerif.Coords
 
@@ -185,10 +186,22 @@ def stepXform (cin : CoordIn) (pts : List (List Rat)) (pyout : Sexp) : String :=
           else if (List.range n).all (fun a => (Impl.dependentAxes c a).length == n) then "affine-coupled"
           else "affine-blocks") ++ (if loose then "/inv-loose" else ""))
 
+/-- Verdicts on one read (or one whole case). -/
+structure ReadRes where
+  impl : Sexp
+  ok : Bool
+  implok : Bool
+  p : Bool
+  br : String
+
+def ReadRes.result (r : ReadRes) : String := driverResult r.impl r.ok r.implok r.p r.br
+
+def ndimMismatch : ReadRes := ⟨.atom "ndim-mismatch", false, true, false, "ndim-mismatch"⟩
+
 /-- `world`: every world component of a dataset under a view. -/
-def stepWorld (c : Coord) (sh : List Nat) (v : View) (pyout : Sexp) : String :=
+def worldCore (c : Coord) (sh : List Nat) (v : View) (pyout : Sexp) : ReadRes :=
   let n := c.n
-  if sh.length ≠ n then bad "world-ndim" else
+  if sh.length ≠ n then ndimMismatch else
   let pts := ptsOf sh v
   let impls := (List.range n).map fun a => Impl.worldView c sh a v
   let specs := (List.range n).map fun a => Spec.worldView c sh a v
@@ -199,13 +212,16 @@ def stepWorld (c : Coord) (sh : List Nat) (v : View) (pyout : Sexp) : String :=
     if outs.length == n then .list ((outs.zip (impls.zip tols)).map fun p => exArrToSexp (echoArr p.1 p.2.1 p.2.2))
     else .list (impls.map exArrToSexp)
   let implok := (impls.zip specs).all fun p => exEq p.1 p.2
-  driverResult impl ok implok c.wf (Impl.branch c sh 0 v)
+  ⟨impl, ok, implok, c.wf, Impl.branch c sh 0 v⟩
+
+def stepWorld (c : Coord) (sh : List Nat) (v : View) (pyout : Sexp) : String :=
+  if sh.length ≠ c.n then bad "world-ndim" else (worldCore c sh v pyout).result
 
 /-- `link`: every automatically created link of a dataset under a view.
 python = per numpy axis `(from_needed_p2w p2w from_needed_w2p w2p)`. -/
-def stepLink (c : Coord) (sh : List Nat) (v : View) (pyout : Sexp) : String :=
+def linkCore (c : Coord) (sh : List Nat) (v : View) (pyout : Sexp) : ReadRes :=
   let n := c.n
-  if sh.length ≠ n then bad "link-ndim" else
+  if sh.length ≠ n then ndimMismatch else
   let cx := Flt.invCtx c
   let pts := ptsOf sh v
   let ws := Thunk.mk fun _ => worldWithTols c pts
@@ -234,12 +250,75 @@ def stepLink (c : Coord) (sh : List Nat) (v : View) (pyout : Sexp) : String :=
     exEq p.2.2.1 (Spec.linkP2W c sh p.1 v) && exEq p.2.2.2.1 (Spec.linkW2P c sh p.1 v) &&
     exEq p.2.2.2.1 (Spec.pixelView sh p.1 v)
   let loose := (w2pTols c cx 0 (worldWithTols c (pts.take 1 ++ pts.reverse.take 1))).any (· > 1 / 4)
-  driverResult impl ok implok c.wf
+  ⟨impl, ok, implok, c.wf,
     ((match v with
      | .all => "all"
      | .basic _ => "basic"
      | .arrays _ _ => if n == 1 then "arrays-1d-bare" else "arrays"
-     | .mask _ => "mask") ++ (if loose then "/inv-loose" else ""))
+     | .mask _ => "mask") ++ (if loose then "/inv-loose" else ""))⟩
+
+def stepLink (c : Coord) (sh : List Nat) (v : View) (pyout : Sexp) : String :=
+  if sh.length ≠ c.n then bad "link-ndim" else (linkCore c sh v pyout).result
+
+/-! ### histories on one dataset object (`Model/C15History.lean`)
+
+case = `(coord shape (hist op…))`, python = one observation per op: reads as in `world` / `link`
+(`()` when the dataset has no coordinates), mutations `ok`.  The state machine is the model's
+`CoordData.apply`; every read is judged against the *current* (shape, coords). -/
+
+inductive HistOp where
+  | rw (v : View)
+  | rl (v : View)
+  | mut (op : HOp) (kind : String)
+
+def optCoord? : Sexp → Option (Option Coord)
+  | .atom "N" => some none
+  | e => match coord? e with
+    | some (.ok c) => some (some c)
+    | _ => none
+
+def histOp? : Sexp → Option HistOp
+  | .list [.atom "rw", ve] => (view? ve).map .rw
+  | .list [.atom "rl", ve] => (view? ve).map .rl
+  | .list [.atom "uvd", sh, ce] => do some (.mut (.update (← sh.toNats?) (← optCoord? ce)) "uvd")
+  | .list [.atom "setc", ce] => do some (.mut (.setCoords (← optCoord? ce)) "setc")
+  | .list [.atom "touch", .atom k] => some (.mut .touch k)
+  | _ => none
+
+structure HistAcc where
+  s : CoordData
+  impls : List Sexp := []
+  ok : Bool := true
+  implok : Bool := true
+  p : Bool := true
+  lastMut : String := "none"
+  lastBr : String := "none"
+
+def histStep (acc : HistAcc) (op : HistOp) (out : Sexp) : HistAcc :=
+  let read (core : Coord → List Nat → View → Sexp → ReadRes) (v : View) : HistAcc :=
+    match acc.s.coords with
+    | none =>
+      { acc with impls := .list [] :: acc.impls, ok := acc.ok && out == .list [], lastBr := "no-coords" }
+    | some c =>
+      let r := core c acc.s.shape v out
+      { acc with impls := r.impl :: acc.impls, ok := acc.ok && r.ok, implok := acc.implok && r.implok,
+                 p := acc.p && r.p, lastBr := r.br }
+  match op with
+  | .rw v => read worldCore v
+  | .rl v => read linkCore v
+  | .mut m kind =>
+    let s' := acc.s.apply m
+    { acc with s := s', impls := .atom "ok" :: acc.impls, ok := acc.ok && out == .atom "ok",
+               p := acc.p && s'.ok, lastMut := if kind == "uvd" && s'.shape != acc.s.shape then "uvd-shape" else kind }
+
+def stepHist (c : Coord) (sh : List Nat) (ops : List HistOp) (pyout : Sexp) : String :=
+  let outs := pyout.toList?.getD []
+  let aligned := outs.length == ops.length
+  let outs' := if aligned then outs else ops.map fun _ => Sexp.atom "none"
+  let s0 : CoordData := ⟨sh, some c⟩
+  let acc := (ops.zip outs').foldl (fun a p => histStep a p.1 p.2) { s := s0, p := s0.ok }
+  driverResult (.list acc.impls.reverse) (aligned && acc.ok) acc.implok acc.p
+    ("hist/" ++ acc.lastMut ++ "/" ++ acc.lastBr)
 
 def step (line : String) : String :=
   match Sexp.parse line with
@@ -247,6 +326,11 @@ def step (line : String) : String :=
     match coord? ce, (pts.toList?.bind (·.mapM sexpToRats?)) with
     | some cin, some ps => stepXform cin ps pyout
     | _, _ => bad "xform-args"
+  | some (.list [.atom fam, .list [ce, sh, .list (.atom "hist" :: opes)], pyout]) =>
+    match coord? ce, sh.toNats?, opes.mapM histOp? with
+    | some (.ok c), some shape, some ops =>
+      if fam == "world" || fam == "link" then stepHist c shape ops pyout else bad "unknown-family"
+    | _, _, _ => bad (fam ++ "-hist-args")
   | some (.list [.atom fam, .list [ce, sh, ve], pyout]) =>
     match coord? ce, sh.toNats?, view? ve with
     | some (.ok c), some shape, some v =>
